@@ -16,6 +16,9 @@ PRIMS = ('transfer', '_transfer', '_transfer_slice')
 
 def run(ctx):
     symmetric_update(ctx)
+    # the per-substance update finds the destination's entry through the key laws of Substance
+    from .identity import identity_discipline
+    identity_discipline(ctx, 'C01.R1', classes=('Substance',), memoised=False)
     n = result_threading(ctx)
     from .c08 import writeback_origin, operands_written_back
     writeback_origin(ctx, 'C01.R2')
